@@ -143,9 +143,13 @@ class ExecBase:
     def coerce(self, v, kind):
         kind = self.w.base_kind(kind)
         if v is NONE:
-            if isinstance(kind, tuple) and kind[0] in ("ref", "dict"):
-                return V(kind if kind[0] == "ref" else ("ref", None), self.w.null)
+            if isinstance(kind, tuple) and kind[0] == "dict":
+                return V(kind, self.w.null)
+            if isinstance(kind, tuple) and kind[0] == "ref":
+                return V(kind, self.w.null)
             raise EngineError(f"None where {kind} expected")
+        if isinstance(kind, tuple) and kind[0] == "dict" and isinstance(v, V):
+            return V(kind, v.t)
         if isinstance(v, (VList, VTuple)) and isinstance(kind, tuple) and kind[0] in ("seq", "set"):
             r = self.to_seq(v, kind[1])
             return V(kind, r.t)
@@ -168,6 +172,47 @@ class ExecBase:
                 if self.w.sort_of(kind) == self.w.sort_of(v.kind):
                     return V(kind, v.t, alias=v.alias)
         raise EngineError(f"cannot coerce {v} to {kind}")
+
+    # ------------------------------------------------------------------ dictionaries (opaque objects + has/val functions)
+    # A-dict-identity: keys are compared by object identity.  CPython compares by hash and ==; the two agree whenever the
+    # keys in use are pairwise distinct as dictionary keys (a precondition that the bounded stand-ins check: the recorded
+    # "value-equal twin" findings of C05/C06/C07 are exactly its violations).
+    def is_dict(self, v):
+        return isinstance(v, V) and isinstance(v.kind, tuple) and v.kind[0] == "dict"
+
+    def dict_fns(self):
+        w = self.w
+        return (w.uf("dict_has", z3.IntSort(), w.Ref, w.Ref, z3.BoolSort()), w.uf("dict_val", z3.IntSort(), w.Ref, w.Ref, w.Ref))
+
+    def dict_has(self, st, d, k):
+        has, _ = self.dict_fns()
+        kt = k.t if isinstance(k, V) else self.w.null
+        return z3.And(d.t != self.w.null, has(st.version("dict"), d.t, kt))
+
+    def dict_get(self, st, d, k, default):
+        """d.get(k, default) for reference-valued dictionaries"""
+        _, val = self.dict_fns()
+        vk = self.w.base_kind(d.kind[2])
+        kt = k.t if isinstance(k, V) else self.w.null
+        dt = self.w.null if default is NONE else default.t
+        cls = self.w.cls(vk[1]) if isinstance(vk, tuple) and vk[0] == "ref" and vk[1] else None
+        return V(("ref", vk[1] if isinstance(vk, tuple) else None), z3.If(self.dict_has(st, d, k), val(st.version("dict"), d.t, kt), dt), cls)
+
+    def empty_dict(self, st, kind):
+        w = self.w
+        d = self.allocate_raw(st, "dict")
+        has, _ = self.dict_fns()
+        k = z3.Const(w.fresh_name("k"), w.Ref)
+        v = z3.Int(w.fresh_name("dv"))
+        st.assume(z3.ForAll([v, k], z3.Not(has(v, d, k)), patterns=[has(v, d, k)]))
+        return V(kind, d)
+
+    def allocate_raw(self, st, hint):
+        r = z3.Const(self.w.fresh_name(f"new_{hint}"), self.w.Ref)
+        st.assume(r != self.w.null)
+        st.assume(self.w.born(r) == st.clock)
+        st.clock_off += 1
+        return r
 
     def truth(self, v):
         if isinstance(v, V):
